@@ -39,12 +39,13 @@ def decodeObs (j : Json) : Except String Obs :=
   | .ok _ => do pure (.acquire ((← getBig j "t") : Rat) (← J.getBool j "ok"))
   | .error _ => do pure (.resize (← J.getNat j "rq") (← J.getNat j "rb") (← J.getBool j "resized"))
 
-/-- `C06.judge {qps, burst, obs}`: the property's judges on an observed history. -/
+/-- `C06.judge {qps, burst, slack, obs}`: the property's judges on an observed history. -/
 def doJudge (a : Json) : Except String Json := do
   let qps ← J.getNat a "qps"
   let burst ← J.getNat a "burst"
   let obs ← (← J.getArr a "obs").toList.mapM decodeObs
-  let v := judgeGo qps burst [] {} obs
+  let slack ← J.getNat a "slack"
+  let v := judgeGo slack qps burst [] {} obs
   pure <| J.obj [("upper", J.bool v.upper), ("lower", J.bool v.lower), ("resize", J.bool v.resize)]
 
 /-- `C06.window {qps, burst, t0, t1, count}`: is `count ≤ ⌈burst + qps·(t1−t0)⌉ (+⌊qps/1e9⌋)`; also the bound. -/
